@@ -28,6 +28,11 @@ def cast(X, dtype):
         return X.astype(np.float32)
     if dtype == "int64":
         return np.round(X * 2).astype(np.int64)
+    if dtype in ("int8", "int16"):
+        # quantised features filling the type's range: differences between two values do not fit the type
+        info = np.iinfo(dtype)
+        lim = float(np.max(np.abs(X))) or 1.0
+        return np.clip(np.round(X / lim * info.max), info.min, info.max).astype(dtype)
     return X
 
 
@@ -39,7 +44,7 @@ def grad_case(draw, classes=None):
     names = [a["name"] for a in (s.get("aff"), s.get("base_kernel"), (s.get("gemini") or {}).get("gs", {}).get("a")) if a]
     if s["x"]["xkind"] in ("huge", "scaled") and (s["cls"] == "KernelRIM" or any(nm in ("poly", "polynomial") for nm in names)):
         s["x"]["xkind"] = "normal"
-    return {"spec": s, "dtype": draw(st.sampled_from(["float64", "float64", "float32", "int64"]))}
+    return {"spec": s, "dtype": draw(st.sampled_from(["float64", "float64", "float32", "int64", "float64", "int8", "int16"]))}
 
 
 def call(label, what, f, *a, **k):
@@ -77,10 +82,21 @@ def oracle_grad(case):
         raise Violation(f"{label}: predict {np.asarray(pred).tolist()} is not the arg-max of predict_proba {P.argmax(1).tolist()}")
     if not np.array_equal(pred, labels):
         raise Violation(f"{label}: predict on the training data {np.asarray(pred).tolist()} != labels_ {labels.tolist()}")
-    fp = call(label, "fit_predict", E.build(s, Xf)[0].fit_predict, X, y)
+    # (an unused second argument - class labels, as in scikit-learn pipelines - is ignored by fit as well)
+    fp = call(label, "fit_predict", E.build(s, Xf)[0].fit_predict, X,
+              y if y is not None or s["random_state"] % 2 else np.arange(n) % 2)
     if not np.array_equal(fp, labels):
         raise Violation(f"{label}: fit_predict {np.asarray(fp).tolist()} != labels_ of an identical fit {labels.tolist()}")
     sc = call(label, "score", est.score, X, y) if y is not None else call(label, "score", est.score, X)
+    if y is None:
+        # without a 'precomputed' affinity the second argument is documented as ignored: labels, or a square matrix left
+        # over from an earlier precomputed configuration, change nothing
+        rs_ = np.random.RandomState(s["random_state"] + 3)
+        for junk in (rs_.rand(n, n), (lambda M_: M_ @ M_.T)(rs_.randn(n, 2)), rs_.randint(0, 2, size=n)):
+            sc_j = call(label, "score with an ignored second argument", est.score, X, junk)
+            if not (sc_j == sc or abs(sc_j - sc) <= 1e-12 * max(1.0, abs(sc))):
+                raise Violation(f"{label}: score(X, y) = {sc_j!r} with an argument y of shape {np.shape(junk)} that the "
+                                f"configuration does not use, score(X) = {sc!r}")
     base, ovo, aff = E.describe(s)
     # the named function evaluated on the data as given (float32 stays float32); a user-supplied matrix is the affinity
     A = np.asarray(y) if y is not None else aff(np.asarray(X))
@@ -142,7 +158,7 @@ def oracle_grad(case):
 
 @st.composite
 def kauri_case(draw):
-    return {"spec": draw(E.kauri_spec()), "dtype": draw(st.sampled_from(["float64", "float32", "int64"]))}
+    return {"spec": draw(E.kauri_spec()), "dtype": draw(st.sampled_from(["float64", "float32", "int64", "int8", "int16"]))}
 
 
 def oracle_kauri(case):
